@@ -59,6 +59,105 @@ func ruleR07iFor(c *Ctx, only func(string) bool, floorPasses, floorArms int) {
 				})
 				return found
 			}
+			// the same pass written as a chain of comma-ok assertions: if x, ok := node.(T); ok { ...; return }
+			// followed by the generic descent
+			{
+				var nodeParams []types.Object
+				for _, fl := range fd.Type.Params.List {
+					for _, nm := range fl.Names {
+						if o := info.Defs[nm]; o != nil {
+							if _, isIface := o.Type().Underlying().(*types.Interface); isIface && types.Implements(o.Type(), nodeIface) {
+								nodeParams = append(nodeParams, o)
+							}
+						}
+					}
+				}
+				hasSwitch := false
+				for _, st := range fd.Body.List {
+					if _, ok := st.(*ast.TypeSwitchStmt); ok {
+						hasSwitch = true
+					}
+				}
+				for _, sobj := range nodeParams {
+					if hasSwitch {
+						break
+					}
+					type ifArm struct {
+						at   int
+						ifs  *ast.IfStmt
+						typ  types.Type
+						bind types.Object
+					}
+					var arms2 []ifArm
+					for si, st := range fd.Body.List {
+						ifs, ok := st.(*ast.IfStmt)
+						if !ok || ifs.Init == nil || ifs.Else != nil {
+							continue
+						}
+						as, ok := ifs.Init.(*ast.AssignStmt)
+						if !ok || len(as.Lhs) != 2 || len(as.Rhs) != 1 {
+							continue
+						}
+						ta, ok := ast.Unparen(as.Rhs[0]).(*ast.TypeAssertExpr)
+						if !ok || ta.Type == nil {
+							continue
+						}
+						if id, ok := ast.Unparen(ta.X).(*ast.Ident); !ok || info.Uses[id] != sobj {
+							continue
+						}
+						okID, isOK := as.Lhs[1].(*ast.Ident)
+						cid, condIsID := ast.Unparen(ifs.Cond).(*ast.Ident)
+						if !isOK || !condIsID || info.Uses[cid] != info.Defs[okID] {
+							continue
+						}
+						tv, ok := info.Types[ta.Type]
+						if !ok {
+							continue
+						}
+						var bind types.Object
+						if bid, ok := as.Lhs[0].(*ast.Ident); ok {
+							bind = info.Defs[bid]
+						}
+						arms2 = append(arms2, ifArm{si, ifs, tv.Type, bind})
+					}
+					if len(arms2) == 0 {
+						continue
+					}
+					last := arms2[len(arms2)-1].at
+					after := &ast.BlockStmt{List: fd.Body.List[last+1:]}
+					// the descent may itself be the last arm (if parent, ok := node.(ast.ParentNode); ok { for ... Children() })
+					descent := callsChildren(after) || passesNode(after, sobj, nil, info)
+					for _, a := range arms2 {
+						if types.IsInterface(a.typ) && callsChildren(a.ifs.Body) {
+							descent = true
+						}
+					}
+					if !descent {
+						continue
+					}
+					passes++
+					c.seen(c.declKey(rel, fd))
+					for _, a := range arms2 {
+						if types.IsInterface(a.typ) || !types.Implements(a.typ, parentIface) {
+							continue
+						}
+						arms++
+						tname := types.TypeString(a.typ, func(p *types.Package) string { return p.Name() })
+						ok := callsChildren(a.ifs.Body) || passesNode(a.ifs.Body, sobj, a.bind, info)
+						how := "descends itself"
+						if !ok {
+							completes, returns := armEnds(a.ifs.Body.List, nr.forInfo(info))
+							if !completes && !returns {
+								ok, how = true, "does not complete (raises)"
+							} else if !returns {
+								ok, how = true, "runs on into the descent that follows"
+							}
+						}
+						c.check(ok, "R07i", c.declKey(rel, fd)+" arm "+tname, a.ifs.Pos(), how,
+							"the pass returns for "+tname+" without descending into its children: whatever the pass does (bind a global, check a reference, assign a message id) is skipped for every node below")
+					}
+				}
+			}
 			for si, st := range fd.Body.List {
 				ts, ok := st.(*ast.TypeSwitchStmt)
 				if !ok {
